@@ -525,9 +525,20 @@ def _walk_seeding(ctx, rule):
     from . import c16
     return c16.r3_seeding(ctx, rule)
 
+def _shared_rule(mod, name, **kw):
+    def run(ctx, rule):
+        import importlib
+        return getattr(importlib.import_module('sa.props.' + mod), name)(ctx, rule, **kw)
+    return run
+
+
 def rules(tier):
     return [('C09.R1', r1_single_stdout_writer), ('C09.R2', r2_pairing), ('C09.R3', r3_threading), ('C09.R4', r4_limit_writers),
-            ('C09.R5', lambda c, r: __import__('sa.props.c04', fromlist=['x']).r12_output_point_total(c, r)), ('C09.R6', _limit_blind_queue), ('C09.R7', _grammar_order), ('C09.R8', _walk_seeding)]
+            ('C09.R5', lambda c, r: __import__('sa.props.c04', fromlist=['x']).r12_output_point_total(c, r)), ('C09.R6', _limit_blind_queue), ('C09.R7', _grammar_order), ('C09.R8', _walk_seeding),
+            # --limit and the session options reach the run under their own keys
+            ('C09.R9', _shared_rule('plumbing', 'option_round_trip')),
+            # C09-ca: os._exit(0) after main(): the buffered tail of the guess stream is never written
+            ('C09.R10', _shared_rule('plumbing', 'no_unflushed_exit'))]
 
 
 META = {
